@@ -588,58 +588,50 @@ impl Sim {
                     );
                 }
                 out.insert("requests".into(), Value::Object(reqs));
-                let admin = staking::state::ADMIN
-                    .get(self.deps.as_ref())
-                    .ok()
-                    .flatten()
-                    .map(|a| a.to_string());
-                out.insert("admin".into(), json!(admin));
-                let st = staking::state::STATE.load(&self.deps.storage).ok();
+                // read from the raw storage (keys `admin` and `state` of the deployed layout), not through the crate's
+                // own constants: a renamed constant or accessor does not concern the harness
+                let admin = raw_json(&self.deps.storage, b"admin");
+                out.insert("admin".into(), admin.clone().unwrap_or(Value::Null));
+                let st = raw_json(&self.deps.storage, b"state");
                 out.insert(
                     "owner_min_time".into(),
-                    json!(st
-                        .as_ref()
-                        .and_then(|s| s.owner_transfer_min_time.map(|t| t.nanos().to_string()))),
+                    st.as_ref().map(|s| s["owner_transfer_min_time"].clone()).unwrap_or(Value::Null),
                 );
                 out.insert(
                     "pending_owner".into(),
-                    json!(st
-                        .as_ref()
-                        .and_then(|s| s.pending_owner.as_ref().map(|a| a.to_string()))),
+                    st.as_ref().map(|s| s["pending_owner"].clone()).unwrap_or(Value::Null),
                 );
                 let ver = cw2_version(&self.deps.storage);
                 out.insert("version".into(), ver);
                 out.insert(
                     "raw_totals".into(),
-                    json!(st.as_ref().map(|s| json!({
-                        "total_native_token": s.total_native_token.to_string(),
-                        "total_liquid_stake_token": s.total_liquid_stake_token.to_string(),
-                        "total_reward_amount": s.total_reward_amount.to_string(),
-                        "total_fees": s.total_fees.to_string(),
-                    }))),
+                    st.as_ref()
+                        .map(|s| {
+                            json!({
+                                "total_native_token": s["total_native_token"],
+                                "total_liquid_stake_token": s["total_liquid_stake_token"],
+                                "total_reward_amount": s["total_reward_amount"],
+                                "total_fees": s["total_fees"],
+                            })
+                        })
+                        .unwrap_or(Value::Null),
                 );
             }
             Which::Treasury => {
                 out.insert("config".into(), self.query(&json!({"config": {}})));
-                let st = treasury::state::STATE.load(&self.deps.storage).ok();
+                let st = raw_json(&self.deps.storage, b"state");
                 out.insert(
                     "owner_min_time".into(),
-                    json!(st
-                        .as_ref()
-                        .and_then(|s| s.owner_transfer_min_time.map(|t| t.nanos().to_string()))),
+                    st.as_ref().map(|s| s["owner_transfer_min_time"].clone()).unwrap_or(Value::Null),
                 );
                 out.insert(
                     "pending_owner".into(),
-                    json!(st
-                        .as_ref()
-                        .and_then(|s| s.pending_owner.as_ref().map(|a| a.to_string()))),
+                    st.as_ref().map(|s| s["pending_owner"].clone()).unwrap_or(Value::Null),
                 );
-                let admin = treasury::state::ADMIN
-                    .get(self.deps.as_ref())
-                    .ok()
-                    .flatten()
-                    .map(|a| a.to_string());
-                out.insert("admin".into(), json!(admin));
+                out.insert(
+                    "admin".into(),
+                    raw_json(&self.deps.storage, b"admin").unwrap_or(Value::Null),
+                );
                 out.insert("version".into(), cw2_version(&self.deps.storage));
             }
         }
@@ -654,6 +646,27 @@ fn sender_prefix() -> &'static str {
 #[cfg(not(has_sender_prefix))]
 fn sender_prefix() -> &'static str {
     "?"
+}
+
+fn raw_json(storage: &dyn Storage, key: &[u8]) -> Option<Value> {
+    storage.get(key).and_then(|b| serde_json::from_slice::<Value>(&b).ok())
+}
+
+#[cfg(has_staking_ibc_timeout)]
+fn staking_ibc_timeout() -> String {
+    staking::contract::IBC_TIMEOUT.nanos().to_string()
+}
+#[cfg(not(has_staking_ibc_timeout))]
+fn staking_ibc_timeout() -> String {
+    "?".to_string()
+}
+#[cfg(has_treasury_ibc_timeout)]
+fn treasury_ibc_timeout() -> String {
+    treasury::execute::IBC_TIMEOUT.nanos().to_string()
+}
+#[cfg(not(has_treasury_ibc_timeout))]
+fn treasury_ibc_timeout() -> String {
+    "?".to_string()
 }
 
 fn cw2_version(storage: &dyn Storage) -> Value {
@@ -747,8 +760,8 @@ fn main() {
             Some("const") => json!({"ok": {
                 "staking_name": staking::contract::CONTRACT_NAME,
                 "staking_version": staking::contract::CONTRACT_VERSION,
-                "ibc_timeout_ns": staking::contract::IBC_TIMEOUT.nanos().to_string(),
-                "treasury_ibc_timeout_ns": treasury::execute::IBC_TIMEOUT.nanos().to_string(),
+                "ibc_timeout_ns": staking_ibc_timeout(),
+                "treasury_ibc_timeout_ns": treasury_ibc_timeout(),
                 "sender_prefix": sender_prefix(),
                 "build": if cfg!(feature = "miniwasm") { "miniwasm" } else { "osmosis" },
             }}),
